@@ -1,7 +1,11 @@
 package main
 
 import (
+	"context"
 	"fmt"
+	"time"
+
+	"github.com/nelhage/taktician/ai/mcts"
 
 	"github.com/nelhage/taktician/tak"
 )
@@ -68,6 +72,33 @@ func init() {
 		st.objs[k] = tak.Alloc(atoi(a[1]))
 		st.live[k] = false
 		return "ok"
+	}
+	// clonemcts <policy|-> <seed> <pos>: a Clone taken BETWEEN two searches of a Monte-Carlo player (which clones, rolls
+	// out and recycles scratch positions of the same size in the same process) stays what it was, and so does its source
+	opTable["clonemcts"] = func(s *Session, a []string) string {
+		policy := a[0]
+		if policy == "-" {
+			policy = ""
+		}
+		p := decPos(a[2])
+		if over, _ := p.GameOver(); over {
+			return "n/a"
+		}
+		mc := mcts.NewMonteCarlo(mcts.MCTSConfig{Policy: policy, Limit: 20 * time.Millisecond, Seed: int64(atoi(a[1])), Size: p.Size()})
+		src := obsStr(p)
+		mc.GetMove(context.Background(), p)
+		k1 := p.Clone()
+		mc.GetMove(context.Background(), p)
+		k2 := p.Clone()
+		mc.GetMove(context.Background(), p)
+		out := "clone=ok"
+		if obsStr(k1) != src || obsStr(k2) != src || fmtMoves(k1.AllMoves(nil)) != fmtMoves(p.AllMoves(nil)) {
+			out = "clone=changed"
+		}
+		if obsStr(p) != src {
+			return out + " src=changed"
+		}
+		return out + " src=ok"
 	}
 	opTable["h.fromraw"] = func(s *Session, a []string) string {
 		st := allocOf(s)
@@ -328,6 +359,11 @@ func errorThenCopy(c *Ctx, st *allocState, src, nslots int) bool {
 }
 
 func genC09(c *Ctx) {
+	// clones taken between the searches of a Monte-Carlo player
+	for k := c.Scale(48, 1600); k > 0; k-- {
+		p := livePosition(c.R, 3+c.R.Intn(4))
+		c.Count("clonemcts." + c.Emit(fmt.Sprintf("clonemcts %s %d %s", []string{"-", "uniform", "place_win"}[c.R.Intn(3)], 1+c.R.Intn(1000), encPos(p))))
+	}
 	n := c.Scale(1400, 100000)
 	const nslots = 6
 	for k := 0; k < n; k++ {
